@@ -53,7 +53,7 @@ def _noises():
         "amplitude": dict(amp_sigma=0.05),
         "detuning": dict(detuning_sigma=0.3),
         "doppler": dict(temperature=50.0),
-        "register": dict(register_sigma_xy=0.05),
+        "register": dict(temperature=50.0, trap_waist=1.0, trap_depth=150.0, disable_doppler=True),
         "relaxation+dephasing": dict(relaxation_rate=0.3, dephasing_rate=0.4),
         "SPAM+relaxation": dict(state_prep_error=0.1, p_false_pos=0.0, p_false_neg=0.0, relaxation_rate=0.3),
     }
